@@ -65,6 +65,10 @@ pub struct NFile {
     /// the file declares no prefix for its own namespace (it is only met as targetNamespace)
     #[serde(default)]
     pub no_own_prefix: bool,
+    /// files whose namespace is imported WITHOUT a schemaLocation and used as a member type; only
+    /// rendered when that file is loaded anyway through located imports from the start file
+    #[serde(default)]
+    pub soft: Vec<usize>,
 }
 
 #[derive(Clone, Debug, serde::Serialize, serde::Deserialize)]
@@ -77,8 +81,8 @@ pub struct NCase {
 
 fn arb_case() -> impl Strategy<Value = NCase> {
     (1usize..=6).prop_flat_map(|n| {
-        let f = (0usize..URI_POOL.len(), proptest::collection::vec(0usize..n, 0..4), 0u8..3, proptest::collection::vec(0usize..URI_POOL.len(), 0..3), any::<bool>(), prop_oneof![2 => Just(false), 1 => Just(true)])
-            .prop_map(|(uri, imports, decl, extra_decls, own_first, no_own_prefix)| NFile { uri, imports, decl, extra_decls, own_first, no_own_prefix });
+        let f = (0usize..URI_POOL.len(), proptest::collection::vec(0usize..n, 0..4), 0u8..3, proptest::collection::vec(0usize..URI_POOL.len(), 0..3), any::<bool>(), prop_oneof![2 => Just(false), 1 => Just(true)], proptest::collection::vec(0usize..n, 0..3))
+            .prop_map(|(uri, imports, decl, extra_decls, own_first, no_own_prefix, soft)| NFile { uri, imports, decl, extra_decls, own_first, no_own_prefix, soft });
         (proptest::collection::vec(f, n), any::<bool>(), prop_oneof![9 => Just(0usize), 1 => 2usize..14]).prop_map(|(files, wsdl, ladder)| NCase { files, wsdl, ladder })
     })
 }
@@ -91,14 +95,38 @@ fn esc(s: &str) -> String {
     s.replace('&', "&amp;").replace('"', "&quot;")
 }
 
+/// files loaded through located imports from the start file
+fn located_reach(c: &NCase) -> BTreeSet<usize> {
+    let mut seen = BTreeSet::from([0usize]);
+    let mut todo = vec![0usize];
+    while let Some(i) = todo.pop() {
+        for j in &c.files[i].imports {
+            if *j < c.files.len() && URI_POOL[c.files[*j].uri] != URI_POOL[c.files[i].uri] && seen.insert(*j) {
+                todo.push(*j);
+            }
+        }
+    }
+    seen
+}
+
 pub fn render(c: &NCase) -> FileSet {
     let mut files = vec![];
+    let loaded = located_reach(c);
     for (i, f) in c.files.iter().enumerate() {
         let own = URI_POOL[f.uri];
         let mut imports: Vec<usize> = vec![];
         for j in &f.imports {
             if *j != i && !imports.contains(j) && URI_POOL[c.files[*j].uri] != own {
                 imports.push(*j);
+            }
+        }
+        // namespaces imported without a location: another import path loads their file
+        let mut soft: Vec<usize> = vec![];
+        for j in &f.soft {
+            let uj = URI_POOL[c.files[*j].uri];
+            let unique_uri = c.files.iter().filter(|x| URI_POOL[x.uri] == uj).count() == 1;
+            if *j != i && uj != own && !imports.contains(j) && !soft.contains(j) && loaded.contains(j) && loaded.contains(&i) && unique_uri {
+                soft.push(*j);
             }
         }
         // prefixes: own = tns, imported = p<j>, extra = x<k>
@@ -122,6 +150,9 @@ pub fn render(c: &NCase) -> FileSet {
                 }
             }
         }
+        for j in &soft {
+            others += &format!(" xmlns:q{j}=\"{}\"", esc(URI_POOL[c.files[*j].uri]));
+        }
         for (k, u) in f.extra_decls.iter().enumerate() {
             if URI_POOL[*u] != own {
                 others += &format!(" xmlns:x{k}=\"{}\"", esc(URI_POOL[*u]));
@@ -143,7 +174,13 @@ pub fn render(c: &NCase) -> FileSet {
         for j in &imports {
             body += &format!("    <xs:import namespace=\"{}\" schemaLocation=\"{}\"/>\n", esc(URI_POOL[c.files[*j].uri]), fname(*j));
         }
+        for j in &soft {
+            body += &format!("    <xs:import namespace=\"{}\"/>\n", esc(URI_POOL[c.files[*j].uri]));
+        }
         let mut members = String::from("<xs:element name=\"own\" type=\"xs:string\"/>");
+        for j in &soft {
+            members += &format!("<xs:element name=\"s{j}\" type=\"q{j}:T{j}\" minOccurs=\"0\"/>");
+        }
         if !no_own {
             // references through the file's own prefix (type= and ref=)
             members += &format!("<xs:element ref=\"tns:L{i}\" minOccurs=\"0\"/><xs:element name=\"leaf\" type=\"tns:S{i}\" minOccurs=\"0\"/>");
@@ -288,7 +325,7 @@ pub fn run(tier: Tier) -> i32 {
         "C10",
         tier,
         "exploration",
-        "1-6 files whose target namespaces are drawn from an adversarial URI pool (equal last segments /v1/types /v2/types, equal three-letter abbreviations typ/type/typing, dots, dashes, URNs, trailing slash, digit-leading segments, case variants, non-ASCII) with further URIs declared but not imported, prefixes declared on the schema root or on the component node, own prefix before or after the foreign ones, any import relation between the files (cycles included), optional WSDL wrapper, and collision ladders of up to 13 equally abbreviating URIs; every file has a type whose members are typed by the imported files' types. The output is parsed with syn: no two pub mod of one name; the relation prefix<->URI built from all namespaces maps is a bijection; URI<->module is a bijection over the structs in namespace modules; every prefix used by a field or an envelope is declared somewhere in the file. Non-trivial: >= 2 URIs whose zeep-style abbreviations coincide, or >= 2 files; distinct by rendered file set.",
+        "1-6 files whose target namespaces are drawn from an adversarial URI pool (equal last segments /v1/types /v2/types, equal three-letter abbreviations typ/type/typing, dots, dashes, URNs, trailing slash, digit-leading segments, case variants, non-ASCII) with further URIs declared but not imported, prefixes declared on the schema root or on the component node, own prefix before or after the foreign ones, any import relation between the files (cycles included), namespaces imported without a schemaLocation whose file is loaded through another import path (before or after), reserved-looking and other standards' URIs (xml..., www.w3.org), optional WSDL wrapper, and collision ladders of up to 13 equally abbreviating URIs; every file has a type whose members are typed by the imported files' types. The output is parsed with syn: no two pub mod of one name; the relation prefix<->URI built from all namespaces maps is a bijection; URI<->module is a bijection over the structs in namespace modules; every prefix used by a field or an envelope is declared somewhere in the file. Non-trivial: >= 2 URIs whose zeep-style abbreviations coincide, or >= 2 files; distinct by rendered file set.",
     );
     ev.assume("whether a declaration is visible where yaserde needs it and whether a prefix is an NCName are wire-level facts judged by C03/C04");
     let n = tier.pick(3000, 60_000);
@@ -302,9 +339,9 @@ pub fn run(tier: Tier) -> i32 {
         trees.push(t);
     }
     // fixed ladders (thorough: a 260-URI ladder as well)
-    let mut fixed: Vec<NCase> = vec![NCase { files: vec![NFile { uri: 0, imports: vec![], decl: 0, extra_decls: (0..URI_POOL.len()).collect(), own_first: false, no_own_prefix: false }], wsdl: true, ladder: 13 }];
+    let mut fixed: Vec<NCase> = vec![NCase { files: vec![NFile { uri: 0, imports: vec![], decl: 0, extra_decls: (0..URI_POOL.len()).collect(), own_first: false, no_own_prefix: false, soft: vec![] }], wsdl: true, ladder: 13 }];
     if tier == Tier::Thorough {
-        fixed.push(NCase { files: vec![NFile { uri: 3, imports: vec![], decl: 0, extra_decls: vec![], own_first: true, no_own_prefix: false }], wsdl: false, ladder: 260 });
+        fixed.push(NCase { files: vec![NFile { uri: 3, imports: vec![], decl: 0, extra_decls: vec![], own_first: true, no_own_prefix: false, soft: vec![] }], wsdl: false, ladder: 260 });
     }
     cases.extend(fixed);
     let sets: Vec<FileSet> = cases.iter().map(render).collect();
